@@ -36,6 +36,8 @@ Definition upd (s : st) (k : nat) (p : proc) (ld : option (list Z)) (pn at_ : op
 Definition mk (c : pc) (e t : Z) : proc := {| p_pc := c; p_eth := e; p_table := t |}.
 Definition mem (x : Z) (l : list Z) : bool := existsb (Z.eqb x) l.
 Definition remove_z (x : Z) (l : list Z) : list Z := filter (fun y => negb (y =? x)) l.
+(* a directory listing has no order: keep it sorted *)
+Fixpoint insert_z (x : Z) (l : list Z) : list Z := match l with [] => [x] | y :: tl => if x <=? y then x :: l else y :: insert_z x tl end.
 
 (* all successors of process k taking its next step; `choices`: the ethertypes a random draw may give *)
 Definition step_proc (choices : list Z) (s : st) (k : nat) : list st :=
@@ -57,7 +59,7 @@ Definition step_proc (choices : list Z) (s : st) (k : nat) : list st :=
           | Some files =>
               if mem e files
               then map (fun c => set_proc s k (mk JOpen c t)) choices          (* FileExistsError: draw another ethertype, try again *)
-              else [upd s k (mk JGet1 e t) (Some (e :: files)) (pin s) (att s)]
+              else [upd s k (mk JGet1 e t) (Some (insert_z e files)) (pin s) (att s)]
           end
       | JGet1 => match pin s with Some o => [set_proc s k (mk Running e o)] | None => [set_proc s k (mk JGet2 e t)] end
       | JGet2 => match pin s with Some o => [set_proc s k (mk Running e o)] | None => [set_proc s k (mk JUndo e t)] end
